@@ -104,14 +104,14 @@ def _build(sysv, cells, quick, seed):
     return t, sc, sel, wmin
 
 
-def _min_image_rows(disp, V, sel, orthos):
+def _min_image_rows(disp, V, sel, Rs):
     """disp (F,P,3), per-frame cell chosen by sel from V (2,3,3) -> d (F,P), best (F,P,3); chunked."""
     F, P = disp.shape[:2]
     d = np.zeros((F, P))
     best = np.zeros((F, P, 3))
     for k in (0, 1):
         idx = np.where(sel == k)[0]
-        R = 2 if orthos[k] else 3
+        R = Rs[k]
         step = max(1, 12000 // max(P, 1))
         for a in range(0, len(idx), step):
             ii = idx[a:a + step]
@@ -119,6 +119,13 @@ def _min_image_rows(disp, V, sel, orthos):
             d[ii] = dd
             best[ii] = bb
     return d, best
+
+
+def _stored_vectors(c):
+    import mdtraj as md
+    t = md.Trajectory(np.zeros((1, 1, 3), np.float32), _topology(dict(n=1, bonds=[])), unitcell_lengths=[c["lengths"]],
+                      unitcell_angles=[c["angles"]])
+    return t.unitcell_vectors[0]
 
 
 def _snapshot(t):
@@ -132,7 +139,7 @@ def _same(a, b):
 def _tuples(n, limit=6):
     import itertools
     m = min(n, limit)
-    tri = [(i, j, k) for j in range(n) for i in range(n) for k in range(i + 1, n) if i != j and k != j]
+    tri = [(i, j, k) for j in range(m) for i in range(m) for k in range(i + 1, m) if i != j and k != j]
     quad = [q for q in itertools.permutations(range(m), 4) if q[0] < q[3]]
     return np.array(tri).reshape(-1, 3), np.array(quad).reshape(-1, 4)
 
@@ -166,11 +173,11 @@ def run_item(arg):
     Vst = np.asarray(t0.unitcell_vectors, np.float64)                  # stored vectors, per frame
     V2 = np.array([Vst[0], Vst[1]]) if F > 1 else np.array([Vst[0], Vst[0]])
     assert all(_same(Vst[f], Vst[f % 2]) for f in range(min(F, 6)))
-    orthos = [c["ortho"] for c in cells]
+    Rs = [idn.needed_R(V2[k], cells[k]["name"]) for k in (0, 1)]
     wfr = np.array([float(np.min(grids.cell_widths(c["vectors"]))) for c in cells])[sel]
     iu = np.triu_indices(n, 1)
     x0 = snap["xyz"].astype(np.float64)
-    D0, B0 = _min_image_rows(x0[:, iu[1]] - x0[:, iu[0]], V2, sel, orthos)
+    D0, B0 = _min_image_rows(x0[:, iu[1]] - x0[:, iu[0]], V2, sel, Rs)
     M0 = _full(B0, n)
     Dfull0 = np.linalg.norm(M0, axis=-1)
     tri, quad = _tuples(n)
@@ -228,7 +235,7 @@ def run_item(arg):
                 "coefficients %s" % (" minus move of atom 0" if image else "", np.round(coef[f], 4).tolist()), bad)
         moved = np.any(k != 0, axis=(1, 2))
         # all pair minimum-image distances unchanged
-        D1, B1 = _min_image_rows(x1[:, iu[1]] - x1[:, iu[0]], V2, sel, orthos)
+        D1, B1 = _min_image_rows(x1[:, iu[1]] - x1[:, iu[0]], V2, sel, Rs)
         e = np.abs(D1 - D0).max(1) if D0.shape[1] else np.zeros(F)
         st["err"] = max(st["err"], float((e / (4 * tol)).max()))
         if (e > 4 * tol).any():
@@ -243,7 +250,7 @@ def run_item(arg):
             if (~okb).any():
                 f, b = np.argwhere(~okb)[0]
                 rec(api, "bonded-pair-not-at-minimum-image", "bond %s (driver order %s): |r_j-r_i| = %.4f but minimum-image "
-                    "distance %.4f" % (tuple(sorted(sysv["bonds"][b])), bonds_sorted, plain[f, b], D0[f, b]), (~okb).any(1))
+                    "distance %.4f" % (tuple(sorted(sysv["bonds"][b])), bonds_sorted, plain[f, b], D0[f, bp[b]]), (~okb).any(1))
         # rigid non-anchor molecules when not made whole
         if api.endswith("mw=0"):
             anch = set(sysv["anchors"]) if isinstance(sysv["anchors"], list) else ({0} if sysv["anchors"] is None else None)
@@ -392,6 +399,7 @@ def run(ctx):
     systems = _systems(quick)
     cost = lambda c: -(27 ** systems[c[0]]["n"] if systems[c[0]]["small"] and not quick else systems[c[0]]["n"])
     order = sorted(range(len(cs)), key=lambda i: cost(cs[i]))
+    idn.measure_radii(ctx, _menu(quick), _stored_vectors)      # search radius each cell needs, before forking
     res_o = ctx.pmap(run_item, [cs[i] + (quick, ctx.seed) for i in order], chunksize=1)
     res = [None] * len(cs)
     for i, r in zip(order, res_o):
@@ -411,8 +419,9 @@ def run(ctx):
         if st["sample"] and len(samples) < 4 and all(s["system"].split("/")[0] != st["sample"]["system"].split("/")[0] for s in samples):
             samples.append(st["sample"])
     menu = _menu(quick)
-    ctx.assume("float64 brute-force minimum image over +-3 images (orthorhombic +-2) around the rounded displacement is the "
-               "true minimum for the menu cells")
+    ctx.assume("float64 brute-force minimum image over +-R images around the rounded displacement is the true minimum; R per "
+               "cell is the smallest radius reproducing R=4 on a 17^3 grid of the fractional residual cube (measured: %s)"
+               % sorted(idn._RC.items()))
     ctx.assume("cells are in mdtraj's standard orientation (a along x, b in the xy-plane)")
     cov = {
         "evaluations": tot["evals"],
